@@ -303,14 +303,29 @@ def check_tree_type(col: Collector, rule: str, repo: Repo):
     # ------------------------------------------------------------ R7 tree_type honoured
     col.floor(rule, 3)
     gt = repo.function("get_ttree_type")
-    rets = [r for r in ast.walk(gt.node) if isinstance(r, ast.Return)]
-    seq = [r for r in rets if "sequence_value()" in src(r)]
-    sca = [r for r in rets if "sequence_value()" not in src(r)]
-    col.add(rule, gt.short, "sequence-column-is-collection-of-tree_type", len(seq) == 1 and
-            src(seq[0].value) == "ctyp.collection(rep.sequence_value().cpp_type().tree_type)",
-            f"a sequence column must be typed collection(<element>.tree_type) (found {[src(r.value) for r in seq]}); rep.cpp_type() would ignore a "
-            "declared tree_type and drop the conversion on push_back", gt.loc)
-    col.add(rule, gt.short, "scalar-column-is-tree_type", len(sca) == 1 and src(sca[0].value) == "rep.cpp_type().tree_type", f"{[src(r.value) for r in sca]}", gt.loc)
+    # what is returned, in terms of `rep` (locals substituted), with the conditions it is returned under
+    from sa.props._tr import deep as _deep
+    from sa.core.paths import outcomes as _outcomes
+    rets = [(src(_deep(gt.node, o.value)).replace(" ", ""), o) for o in _outcomes(gt.node) if o.kind == "return" and o.value is not None]
+    inner = "rep.sequence_value()"
+    flat = [t for t, o in rets if t == f"ctyp.collection({inner}.cpp_type().tree_type)"]
+    nested = [t for t, o in rets if t == f"ctyp.collection(get_ttree_type({inner}))"]
+    nested_guarded = [o for t, o in rets if t == f"ctyp.collection(get_ttree_type({inner}))"
+                      and any(tr and "cpp_sequence" in g and "isinstance" in g and g != "isinstance(rep, crep.cpp_sequence)" for g, tr in o.guards)]
+    sca = [t for t, o in rets if "sequence_value()" not in t]
+    col.add(rule, gt.short, "sequence-column-is-collection-of-tree_type", len(flat) == 1 and len(nested) <= 1 and len(nested) == len(nested_guarded),
+            f"a sequence column must be typed collection(<element>.tree_type) - for a sequence of sequences collection(<tree type of the inner "
+            f"sequence>) (found {[t for t, _ in rets]}); rep.cpp_type() would ignore a declared tree_type and drop the conversion on push_back", gt.loc)
+    col.add(rule, gt.short, "nested-sequence-column-uses-the-inner-tree-type", len(nested) == 1 and len(nested_guarded) == 1,
+            "a sequence of sequences must be typed collection(get_ttree_type(<inner sequence>)): the collection type of the inner sequence is its own "
+            "tree type, so a declared tree_type (an enum stored as int) would be lost at depth two", gt.loc)
+    col.add(rule, gt.short, "scalar-column-is-tree_type", sca == ["rep.cpp_type().tree_type"], f"{sca}", gt.loc)
+    # ... and the buffer a sequence of sequences is collected in has that same type
+    cf_ = repo.method("query_ast_visitor", "code_fill_ttree")
+    st_ = [c for f_ in [cf_] + [g_ for g_ in repo.all_functions() if g_.parent is cf_] for c in ast.walk(f_.node)
+           if isinstance(c, ast.Call) and call_name(c) == "cpp_variable" and c.args and "ntuple" in src(c.args[0])]
+    col.add(rule, cf_.short, "inner-buffer-has-the-tree-type", len(st_) >= 1 and all(src(arg(c, 2, "cpp_type")).startswith("get_ttree_type(") for c in st_),
+            f"the std::vector an inner sequence is collected in must be declared get_ttree_type(<inner>) ({[src(arg(c, 2, 'cpp_type')) for c in st_]})", cf_.loc)
     tt = repo.find_class("terminal").methods.get("tree_type")
     from sa.core.paths import outcomes
     outs = outcomes(tt.node)
